@@ -341,7 +341,9 @@ def _chr(v):
 # enum model
 
 NAMES = ["A", "B", "C", "D", "F", "G", "H", "J", "L", "M", "P", "Q", "S", "U", "W", "X", "Y", "Z",
-         "Error", "Ok", "Err", "None", "Some", "Result", "TryFrom", "Self_", "val", "Enum", "Default", "Into"]
+         "Error", "Ok", "Err", "None", "Some", "Result", "TryFrom", "Self_", "val", "Enum", "Default", "Into",
+         # names that differ only in letter case or by underscores (any name mangling of helper items must stay injective)
+         "Kb", "KB", "kb", "K_b", "Ab", "AB", "ab", "DISCRIMINANT", "Discriminant", "A_", "_A", "Output", "Value"]
 RAW_NAMES = ["r#type", "r#match", "r#fn"]
 
 # (type text, value for instantiation with a local lifetime, value for 'static), by what they need
@@ -743,6 +745,9 @@ def dense_spec(kind, rng):
     elif kind == "raw-ident":
         spec.repr = rng.choice(["u8", "i32", None])
         spec.variants = [Variant("A", "unit", []), Variant(rng.choice(RAW_NAMES), "unit", []), Variant("B", "unit", [])]
+    elif kind == "case-twins":   # names equal up to letter case / underscores: helper items named after variants must not collide
+        spec.repr = rng.choice(["u16", "i8", None])
+        spec.variants = [Variant(n, "unit", []) for n in ("Kb", "KB", "kb", "K_b", "Mb", "MB", "A_", "_A", "A")]
     elif kind == "raw-ident-fields-only":   # raw identifier only on a variant with fields: no constant is generated for it
         spec.repr = "u8"
         spec.variants = [Variant("A", "unit", []), Variant("r#type", "tuple", [FT_PLAIN[0]]), Variant("B", "unit", [])]
@@ -966,7 +971,7 @@ def run(ctx):
     for k in range(n_enums):
         spec = gen_spec(rng, k)
         cases.append(emit_case("e%d" % k, spec, rng, nrand))
-    dense_kinds = ["lowprec-generic", "u8-full", "i8-full", "i8-run128", "i8-run129+", "i8-two-runs", "u16-long", "i16-long-neg", "raw-ident", "raw-ident-fields-only"]
+    dense_kinds = ["lowprec-generic", "u8-full", "i8-full", "i8-run128", "i8-run129+", "i8-two-runs", "u16-long", "i16-long-neg", "raw-ident", "raw-ident-fields-only", "case-twins"]
     dense = []
     for rep in range(ctx.pick(1, 3)):
         for dk in dense_kinds:
